@@ -564,10 +564,11 @@ Definition handle5 (line : str) : str :=
 (* ---------- histories of runs, edits and kills against the cache machine (Cache.v) ---------- *)
 Require Import Laze.model.Cache.
 
-Definition cargs_of (bin : N) (c : cli) : cargs :=
+Definition cargs_of (bin : N) (info : bool) (c : cli) : cargs :=
   {| ca_bin := bin; ca_le := cl_le c; ca_builders := cl_builders c; ca_apps := cl_apps c; ca_local := cl_local c;
      ca_select := cl_select c; ca_disable := cl_disable c; ca_define := cl_define c;
-     ca_partition := match cl_partition c with Some (_, m, n) => Some (N.to_nat m, N.to_nat n) | None => None end |}.
+     ca_partition := match cl_partition c with Some (_, m, n) => Some (N.to_nat m, N.to_nat n) | None => None end;
+     ca_info := info |}.
 
 Definition rd_vtree : rd vtree := rd_list (rd_bind rd_s (fun f => rd_bind rd_n (fun v => rd_ret (f, v)))).
 Definition rd_store : rd (list (str * N * list ydoc)) :=
@@ -575,14 +576,15 @@ Definition rd_store : rd (list (str * N * list ydoc)) :=
 Definition store_of (l : list (str * N * list ydoc)) (f : str) (v : N) : list ydoc :=
   match find (fun x => str_eqb (fst (fst x)) f && N.eqb (snd (fst x)) v) l with Some x => snd x | None => [] end.
 
-Inductive hop := HRun (a : cargs) (stop : nat) (m : main_req) | HEdit (t : vtree).
+Inductive hop := HRun (a : cargs) (stop : nat) (m : main_req) | HEdit (t : vtree) | HCorrupt (l : bool).
 Definition rd_hop : rd hop := fun ts =>
   match ts with
   | t :: r =>
       if str_eqb t (S_ "R") then
-        rd_bind rd_n (fun bin => rd_bind rd_n (fun stop => rd_bind rd_cli (fun c => rd_bind rd_main_req (fun m =>
-          rd_ret (HRun (cargs_of bin c) (N.to_nat stop) m))))) r
+        rd_bind rd_n (fun bin => rd_bind rd_n (fun stop => rd_bind rd_bool (fun info => rd_bind rd_cli (fun c => rd_bind rd_main_req (fun m =>
+          rd_ret (HRun (cargs_of bin info c) (N.to_nat stop) m)))))) r
       else if str_eqb t (S_ "E") then rd_bind rd_vtree (fun t => rd_ret (HEdit t)) r
+      else if str_eqb t (S_ "C") then rd_bind rd_bool (fun l => rd_ret (HCorrupt l)) r
       else None
   | [] => None end.
 
@@ -608,6 +610,9 @@ Fixpoint run_hist (EVt : str -> evr) (bd : str) (st : str -> N -> list ydoc) (w 
   | HEdit t :: rest =>
       rmap (fun s => S_ " | E" ++ s)
            (run_hist EVt bd st (cstep siphash13 EVt bd st w (Edit t)) rest)
+  | HCorrupt l :: rest =>
+      rmap (fun s => S_ " | E" ++ s)
+           (run_hist EVt bd st (cstep siphash13 EVt bd st w (Corrupt l)) rest)
   | HRun a k m :: rest =>
       let '(w', o) := crun siphash13 EVt bd st a k w in
       let sl := get_slot _ _ _ _ w' (cis_local a) in
